@@ -172,15 +172,30 @@ def summarise(branch, stmts, in_loop=None, env=None):
             if isinstance(t, ast.Name) and isinstance(v, ast.Name) and v.id in env:
                 env[t.id] = env[v.id]
                 continue
+            if isinstance(t, ast.Tuple) and isinstance(v, (ast.Tuple, ast.List)) and len(t.elts) == len(v.elts) and all(isinstance(n_, ast.Name) for n_ in t.elts) \
+                    and all(isinstance(c_, ast.Name) and c_.id in env for c_ in v.elts):
+                vals_ = [env[c_.id] for c_ in v.elts]
+                for n_, val_ in zip(t.elts, vals_):
+                    env[n_.id] = val_
+                continue
             if ast.unparse(t) == "self.inline_close" and isinstance(v, ast.Constant) and v.value is None:
                 ev.append(("reset-close", s.lineno))
                 continue
             if isinstance(t, ast.Name) and isinstance(v, (ast.List, ast.Tuple)) and v.elts and all(isinstance(c, ast.Call) and isinstance(c.func, ast.Attribute) and
                                                                                                    isinstance(c.func.value, ast.Name) and c.func.value.id == "self" for c in v.elts):
-                # operands collected into a list before the builder is called (batching)
-                if not hasattr(branch, "batched"):
-                    branch.batched = []
-                branch.batched.append((s.lineno, ast.unparse(s)[:60]))
+                # operands collected into a list: batching when the list goes on growing by further reads, or is star-passed
+                # to the builder (a list holding the operands of ONE group is just another way to spell three locals)
+                grows = False
+                for n_ in ast.walk(ast.Module(body=list(stmts), type_ignores=[])):
+                    if isinstance(n_, ast.Call) and isinstance(n_.func, ast.Attribute) and n_.func.attr in ("append", "extend") and isinstance(n_.func.value, ast.Name) \
+                            and n_.func.value.id == t.id:
+                        grows = True
+                    if isinstance(n_, ast.Starred) and isinstance(n_.value, ast.Name) and n_.value.id == t.id:
+                        grows = True
+                if grows:
+                    if not hasattr(branch, "batched"):
+                        branch.batched = []
+                    branch.batched.append((s.lineno, ast.unparse(s)[:60]))
             branch.unknown.append((s.lineno, "assignment %s" % ast.unparse(s)[:60]))
             continue
         if isinstance(s, ast.If):
@@ -213,9 +228,19 @@ def summarise(branch, stmts, in_loop=None, env=None):
                     # every name that carries the value after the statement must hold the checked close on the fallback path
                     carriers = {n for n in targets if n in guarded} | ({x} if x in guarded and not copies else set())
                     if carriers and not (set(copies) - guarded):
+                        # other names that hold the same object but are not re-bound on the fallback path keep the missing value
+                        # there (coord = coords__0; if coord is None: coord = <close>...  leaves coords__0 as it was)
+                        stale = [n_ for n_ in env if n_ != x and env[n_] == env[x] and n_ not in guarded and n_ not in copies]
+                        old_vid = env[x]
                         ev.append(("check", env[x], "close-or-raise", s.lineno))
                         for c in carriers | set(copies):
                             env[c] = env[x]
+                        for n_ in stale:
+                            reader = next((e_[2] for e_ in ev if e_[0] == "read" and e_[1] == old_vid), None)
+                            vid = fresh(n_)
+                            env[n_] = vid
+                            if reader is not None:
+                                ev.append(("read", vid, reader, s.lineno))
                         continue
                     if unguarded and not guarded:
                         # the inline close is substituted but never checked: the value may still be None
